@@ -536,6 +536,14 @@ func runReaders(c *simrun.Ctx) *simrun.Violation {
 		return true
 	}
 	sched.Run()
+	if sched.Abandoned {
+		// a task was blocked on a lock held by a parked task (the code under
+		// test takes a mutex around a yield point): the schedule was given up
+		// and the run decides nothing
+		st.Add("runs_abandoned_lock_held_across_a_yield_point", 1)
+		newRaceReports()
+		return nil
+	}
 	st.Add("simulations", 1)
 	st.Add("scheduler_steps", int64(sched.Steps))
 	st.Add("fault_context_switches", int64(sched.Switches))
